@@ -222,7 +222,8 @@ theorem sQ_apex :
   rw [hp, hq, sQ_pos, hm]
   simp only [Gen.single10, Gen.nodeMass, Gen.cellMass, Gen.nbNodes, internalContribs, prelude, pressureContribs, tensionContribs,
     bendingContribs, bendingContribsOf, angleContribs, updateFaceTypes, cQ, sQ, C02.octa, forceParams, nodeForce, faceGeom,
-    faceNormalArea, cellArea, cellVolume, cellVol6, volFinish, volTerm, tensionFace, pressureFace, angleFace, targetVolume,
+    faceNormalArea, cellArea, cellVolume, cellVol6, cellVol6At, volOrigin, volRefPoint, volRefOfFace, volFinish, volTerm, tensionFace, pressureFace,
+    angleFace, targetVolume,
     Gen.Forces.pressure, tensionTargetArea, C02.fxQ, C02.octaPos, Params.ftOf, fabsR, State.nn, lit_eq]
   norm_num [V3.normSq_def, V3.cross_def, V3.dot_def]
   constructor <;> apply V3.ext' <;> norm_num
